@@ -3,8 +3,10 @@
 
 Executable model of `reactive_graph/src/owner.rs`, `owner/arena.rs`, `owner/arena_item.rs`,
 `owner/context.rs`, `owner/stored_value.rs`, `owner/storage.rs`, plus exactly as much of
-`effect/effect.rs`, `channel.rs`, `computed/inner.rs` as decides *when* an owner is cleaned
-(`Owner::with_cleanup` on every effect / memo run) and when an effect stops running.
+`effect/effect.rs`, `effect/render_effect.rs`, `effect/immediate.rs`, `channel.rs`, `computed/inner.rs`,
+`computed/async_derived/mod.rs` (`ScopedFuture`), `lib.rs` (`spawn_local_scoped*`) as decides *when* an
+owner is cleaned (`Owner::with_cleanup` on every effect / memo run), when an effect or a scoped task
+stops running and how long an `Owner` stays alive.
 The code is modelled **as it is** (default features: one process-wide arena, no `sandboxed-arenas`).
 
 ## Map model ↔ code
@@ -35,7 +37,11 @@ The code is modelled **as it is** (default features: one process-wide arena, no 
     - `drop o`   = `Drop for OwnerInner`: the same three loops; `o` is already un-upgradable.
     - `run c`    = calling one boxed cleanup closure.  A `nested` cleanup is the harness's closure
                    that itself calls `on_cleanup` and `StoredValue::new` (work registered *during*
-                   a cleanup lands on whatever owner is current at that moment).
+                   a cleanup lands on whatever owner is current at that moment).  `c.drops = some ow`:
+                   the closure owns a value whose destructor drops `Owner` `ow` — the
+                   `ImmediateEffect` that `new_scoped` moves into `on_cleanup(move || effect.dispose())`
+                   (`closureFrames`: `drop ow` right after the call, unless `ow` is on the
+                   `Owner::with` stack — the thread-local holds a clone — see `immRelease`).
     - `remove k` = `arena.remove(node)` + the destructor of the removed value: an `ArcMemo` owns
                    its `Owner` (`MemoInner.owner`; the arena value `Val.memo m ow` records it) ⇒
                    `drop ow`; an effect's `Arc<RwLock<EffectInner>>` owns the channel `Sender` ⇒
@@ -62,9 +68,41 @@ The code is modelled **as it is** (default features: one process-wide arena, no 
       the body; the handler is called after `owner.with_cleanup(..)`, under `owner.with(..)`, without
       an observer (`afterRun`/`runHandler`) when `immediate || !first_run`.  (`runHandlerOld`: the
       code before the repair of F-C08-2 called it outside the owner; kept for the regression witness.)
-    - `RenderEffect::new` (`EffKind.render`, `newRender`): `Owner::new()`, first run at once under
-      `owner.with` (fresh owner), then the task; **not** in the arena — alive while the handle is
+    - `RenderEffect::new` / `new_isomorphic` (`EffKind.render`, `newRender`): `Owner::new()`, first
+      run at once under `owner.with` (fresh owner), then the task (`spawn_local` vs `spawn`), whose
+      loop re-runs under `owner.with_cleanup`; **not** in the arena — alive while the handle is
       (`EffRec.held`); re-run on `update_if_necessary()` only.
+    - every task loop is `while rx.next().await.is_some() { .. }`: a run that notifies its own effect
+      (it wrote a signal it reads) goes round again in the same poll (`pollLoop`, `notifiedAgain`),
+      and the wake-up leaves the task's flag set (`rewake`).
+    - `ImmediateEffect::new` / `new_isomorphic` / `new_mut` / `new_scoped` (`EffKind.imm sc mutf`,
+      `newImm`): `EffectInner::new` (`Owner::new()`, state `Dirty`, the three run counters), first
+      `update_if_necessary` at once; no task, not in the arena.  `mark_dirty` (`markSub`) sets `Dirty`
+      and calls `update_if_necessary` synchronously (`immUpdate`): nothing while the owner is paused;
+      otherwise `run_count_start += 1`, `clear_sources` (`immBegin`), `owner.with_cleanup(fun)`
+      (`runScoped`) — **also when an earlier run of the same effect is still in progress** (the body
+      wrote one of its dependencies: `BOp.write`, `writeSig`) —, then the counters (`immEnd`);
+      `add_source` only while the last run to start has not completed (`addSource`).  The effect
+      lives as long as its handle (`held`); `new_scoped` moves the handle into an `on_cleanup` closure
+      of the current owner (`immScope`: `dropCid` = that cleanup; alive until it has run; with no
+      current owner the closure and the effect are dropped at once).  F-C08-3: while a run is in
+      progress the notifying loop holds an upgraded `Arc`, so an effect whose last handle goes during
+      its own run is still notified (`effLive`'s last disjunct, configuration `legacyImm`, ghost
+      `immHit`); its `Owner` goes when the outermost run returns (`immRelease`).
+    - scoped tasks (`EffKind.task cancel`, `newTask`, `BOp.spawn`): `ScopedFuture::new` captures
+      `Owner::current().unwrap_or_default()` (a strong reference: `captureOwner`) and the observer;
+      every poll runs under them (`runSeg`: `owner.with(|| observer.with_observer(..))`).  The
+      harness's future is `async { body; yield; body }` (`pc`, `afterSeg`).
+      `spawn_local_scoped_with_cancellation` first registers `on_cleanup(move || abort_handle.abort())`
+      on the current owner (`dropCid` = that cleanup): `futures::future::Abortable` returns without
+      polling the user's future once the flag is set, and looks at it again before returning
+      `Pending` (`pollTask`: `effLive` = "the abort cleanup has not run").  The entry is a row of the
+      same table as the effects, so "never runs again" is one theorem for all of them.
+    - who holds an `Owner` (`ownerHeld`, `releaseOwner`): an owner handle, the task of an effect
+      until it returns (`endTask`), an `ImmediateEffect`, the future of a scoped task (`finishTask`);
+      the last one to let go drops it.  (Memo owners and the owners of `new_scoped` effects are
+      dropped by an arena value / a cleanup closure inside a pass, outside this count: no scoped
+      task is spawned from inside them — `execWith`.)
     - `AsyncDerived::new` with a future that is ready at once (`EffKind.async`, `newAsync`):
       `Owner::new()`, `owner.with_cleanup(|| fun())` at once, task spawned (`Executor::spawn`), then
       the arena item (`finishAsync`); the task re-runs `owner.with_cleanup(|| fun())` when marked
@@ -534,7 +572,7 @@ functions, `AsyncDerived`s under construction) -/
   /-- configuration, never changed by any op: an `ImmediateEffect` that is running stays reachable
   for notifications after its last handle has been dropped (the notifying loop holds the upgraded
   `Arc`), as the code at the pinned commit does (F-C08-3); `false` = `dispose` stops it at once -/
-  legacyImm : Bool := true
+  legacyImm : Bool := false
   /-- configuration, never changed by any op: run `Effect::watch` handlers as the code did before
   the repair of F-C08-2 (`runHandlerOld`); only the regression witness sets it -/
   legacyWatch : Bool := false
